@@ -217,6 +217,8 @@ def run_case(spec):
         spec2["case"] = [int(x) for x in rng.integers(0, 2**31, size=3)]
         spec2["sizes"] = [int(rng.integers(1, 3)) for _ in range(nb)]
         p2 = matprob.build(matprob.normalise(spec2))
+        p2.orders = list(p.orders)  # both parts and the sum are compared on the same set of multi-orders
+        p2.spec["max_total"] = spec["max_total"]
         # second problem shifted by 1/4 so that all energies of the sum are distinct across the two parts
         quarter = GR(Fraction(1, 4))
         t2f = {n: (M + 0.25 * np.eye(p2.N) if n == z else M) for n, M in p2.terms_f.items()}
